@@ -36,12 +36,34 @@ def first_section_after(body, cfg, start, limit=12):
     return None, cur
 
 
+def exact_sets(rep, P, F):
+    import decide
+    b = F.body("libwild::version_script::BasicMatchRules::matches_exact")
+    if b is None:
+        rep.lost("exact-sets", "BasicMatchRules::matches_exact")
+        return
+    paths = decide.bool_paths(P, F, b)
+    varmap = {"e_empty": "is_empty(self.exact)", "x_empty": "is_empty(self.escaped_exact)", "c_name": "contains(self.exact, lookup.name",
+              "c_dem": "contains(self.exact, prehashed", "c_esc": "contains(self.escaped_exact", "mangled": "place:mangled"}
+    dom = decide.table_atoms(paths)
+    # the is_empty() tests are only shortcuts (contains() of an empty set is false): a tree without them is judged without them
+    for opt in ("e_empty", "x_empty"):
+        if not any(varmap[opt] in a for a in dom):
+            del varmap[opt]
+    ok, why = decide.check_formula(paths, varmap,
+                               lambda v: bool((not v.get("e_empty", False) and (v["c_dem"] if v["mangled"] else v["c_name"])) or (not v.get("x_empty", False) and v["c_esc"])))
+    rep.ob("exact-sets", "truth-table", ok, why if ok else why + " - a name listed in the other exact set of the same section is not matched (GNU ld treats `bar\\_one` as the literal bar_one)", b.file, b.line)
+
+
 def run(ctx, rep):
     F = ctx.facts(); P = ctx.program()
+    exact_sets(rep, ctx.program(), ctx.facts())
     rep.rule("phases", "exact tests run in a forward loop, glob and match-all tests in reversed loops; exact → glob → match-all, never back")
     rep.rule("glob-passes", "the glob phase runs twice, first for non-`*` globs then for `*` globs")
     rep.rule("section-pairing", "a test on `globals` yields Global on its true edge, a test on `locals` yields Local; globals are tested before locals of the same kind")
     rep.rule("mangled-flag", "`general` rules are matched with mangled=false, `cxx` rules with mangled=true")
+    rep.rule("exact-sets", "matches_exact(name) == (exact non-empty && exact.contains(mangled ? demangled : name)) || (escaped_exact non-empty && escaped_exact.contains(..)): "
+             "both the plain and the backslash-escaped exact names of a section are consulted (truth table over the MIR paths)")
     rep.rule("index", "the returned version index is the enumerate() index of the version being visited")
     rep.rule("is-local", "is_local(name) == find_match(name) is Some((_, Local)); the loader downgrades on that edge (C31) and regular scripts ask is_local")
     rep.rule("version-number", "version_for_symbol: 0 -> None, i -> i + VER_NDX_GLOBAL; explicit versions via the name map + VER_NDX_GLOBAL, empty -> VER_NDX_GLOBAL, unknown -> error")
